@@ -28,6 +28,12 @@ RULE = (
     "FSArray (sometimes a primitive array or an FSList) as the value of a TOP-ranged feature, as the head of an FSList node or "
     "nested (up to depth 3) in an FSArray whose holders do not restrict the element type, its elements preferably not indexed, "
     "the same collection now and then at two places. "
+    "Fourth wave (own streams again): in 25% the explicit ids are renumbered to the dense block right above the sofa ids, the "
+    "largest one (or every one, in add order) being added exactly when it is the id the generator would hand out next (15%: "
+    "one above), and a sofa holds a byte array without id that is neither indexed nor referenced, so that ids are still "
+    "drawn while the document is written; in 30% some of the indexed structures are taken over from another CAS: created "
+    "without a sofa, indexed in a view of a second CAS (mostly a view whose sofa id no sofa of the CAS under test has) "
+    "and then added to their view of the CAS under test. "
     "A case is non-trivial when it has >= 2 structures and a reference or collection slot is set."
 )
 TRUSTED = [
@@ -79,8 +85,12 @@ def run_impl(cassis, sc):
     sofas = [[s.xmiID, s.sofaNum] for s in cas.sofas]
     xmi = cas.to_xmi()
     doc = xmlabs.parse(xmi)
-    cc = scen.canon(cas, "xmi")
-    return {"doc": doc, "canon": cc, "ids": {l: o.xmiID for l, o in objs.items()}, "sofas": sofas}
+    ids = {l: o.xmiID for l, o in objs.items()}
+    try:
+        cc = scen.canon(cas, "xmi")
+    except RuntimeError as e:          # the id-keyed observation does not exist: two reachable structures carry one id
+        return {"doc": doc, "canon": None, "canon_error": str(e), "ids": ids, "sofas": sofas}
+    return {"doc": doc, "canon": cc, "ids": ids, "sofas": sofas}
 
 
 def oracle(cassis, sc, obs):
@@ -90,6 +100,8 @@ def oracle(cassis, sc, obs):
     root = obs["doc"]["root"]
     if (root["ns"], root["tag"]) != (xmlabs.NS_XMI, "XMI"):
         return f"root element is {{{root['ns']}}}{root['tag']}"
+    if obs["canon"] is None:
+        return "closed: " + (xc.duplicate_ids(obs["doc"]) or "") + " [in memory after the save: " + obs["canon_error"] + "]"
     msg = xc.check_closed(obs["doc"], obs["canon"])
     if msg:
         return "closed: " + msg
@@ -105,6 +117,8 @@ def oracle(cassis, sc, obs):
 
 
 def render(sc, obs):
+    if obs["canon"] is None:
+        return None
     cassis = xc.STATE["cassis"]
     schema, names = xc.schema_and_names(cassis, sc)
     return "mkCase\n %s\n (%s)\n %s\n %s\n (%s)" % (
@@ -125,6 +139,8 @@ def distribution(scenarios, observations):
     d["elements_written"] = sum(len(o["doc"]["elems"]) for o in observations if o)
     d["cases_same_feature_name_on_unrelated_types"] = sum(1 for sc in scenarios if sc.get("knobs", {}).get("same_name"))
     d["cases_collections_as_reference_targets"] = sum(1 for sc in scenarios if sc.get("knobs", {}).get("coll_targets"))
+    d["cases_ids_at_the_generator_edge"] = sum(1 for sc in scenarios if sc.get("knobs", {}).get("edge_ids"))
+    d["cases_structures_taken_over_from_another_cas"] = sum(1 for sc in scenarios if sc.get("knobs", {}).get("taken_over"))
     return d
 
 
